@@ -8,6 +8,142 @@ use ssz::{BitList, BitVector, BitVectorDynamic, Decode, Encode};
 use std::hash::{Hash, Hasher};
 use typenum::Unsigned;
 
+/// The bit sequence of a bitfield as seen through its iterator.  Sequential iteration is the reference; every
+/// other way the `Iterator` API lets a caller walk the sequence (`nth`, `skip`, `step_by`, `take` then the
+/// rest, `last`, `count`, `fold`, `size_hint` after a partial walk) must show the same bits (C11: "iteration
+/// equals that of a plain sequence of booleans").  When one of them does not, the sequence *it* shows is
+/// reported instead of the sequential one, so the disagreement surfaces as bits that differ from the model.
+pub fn iter_views<I: Iterator<Item = bool>, F: Fn() -> I>(mk: F) -> Vec<bool> {
+    let seq: Vec<bool> = mk().collect();
+    let n = seq.len();
+    let mut ks: Vec<usize> = (0..n.min(20)).collect();
+    for c in [8usize, 16, 24, 32, 64, 128, 256, 1024] {
+        for d in [c.saturating_sub(1), c, c + 1] {
+            if d <= n + 1 {
+                ks.push(d);
+            }
+        }
+    }
+    for d in [n.saturating_sub(2), n.saturating_sub(1), n, n + 1] {
+        ks.push(d);
+    }
+    ks.sort();
+    ks.dedup();
+    // a view that disagrees: the sequence it implies (same length where that makes sense)
+    let differs = |alt: Vec<bool>| -> Vec<bool> {
+        if alt != seq { alt } else { let mut a = alt; a.push(true); a }
+    };
+    // nth(k) on a fresh iterator
+    for &k in &ks {
+        let got = mk().nth(k);
+        if got != seq.get(k).copied() {
+            let mut alt = seq.clone();
+            match got {
+                Some(b) if k < n => alt[k] = b,
+                Some(b) => alt.push(b),
+                None => alt.truncate(k),
+            }
+            return differs(alt);
+        }
+    }
+    // skip(k): the tail
+    for &k in &ks {
+        let tail: Vec<bool> = mk().skip(k).collect();
+        let want: Vec<bool> = seq.iter().skip(k).copied().collect();
+        if tail != want {
+            let mut alt: Vec<bool> = seq.iter().take(k).copied().collect();
+            alt.extend(tail);
+            return differs(alt);
+        }
+    }
+    // step_by(s)
+    for s in [2usize, 3, 5, 7, 8, 9, 16] {
+        let got: Vec<bool> = mk().step_by(s).collect();
+        let want: Vec<bool> = seq.iter().step_by(s).copied().collect();
+        if got != want {
+            let mut alt = seq.clone();
+            for (j, b) in got.iter().enumerate() {
+                if j * s < alt.len() {
+                    alt[j * s] = *b;
+                } else {
+                    alt.push(*b);
+                }
+            }
+            if got.len() < want.len() {
+                alt.truncate(got.len() * s);
+            }
+            return differs(alt);
+        }
+    }
+    // a partial walk, then nth / the rest / size_hint
+    for &j in &ks {
+        if j > n {
+            continue;
+        }
+        let mut it = mk();
+        let mut head = vec![];
+        for _ in 0..j {
+            match it.next() {
+                Some(b) => head.push(b),
+                None => break,
+            }
+        }
+        let (lo, hi) = it.size_hint();
+        let remaining = n - head.len().min(n);
+        if lo > remaining || hi.map(|h| h < remaining).unwrap_or(false) {
+            let mut alt = seq.clone();
+            alt.truncate(head.len() + hi.unwrap_or(lo).min(lo.max(0)));
+            return differs(alt);
+        }
+        let third = it.nth(2);
+        if third != seq.get(j + 2).copied() {
+            let mut alt = seq.clone();
+            match third {
+                Some(b) if j + 2 < n => alt[j + 2] = b,
+                Some(b) => alt.push(b),
+                None => alt.truncate(j + 2),
+            }
+            return differs(alt);
+        }
+        let rest: Vec<bool> = it.collect();
+        let want: Vec<bool> = seq.iter().skip(j + 3).copied().collect();
+        if rest != want {
+            let mut alt: Vec<bool> = seq.iter().take(j + 3).copied().collect();
+            alt.extend(rest);
+            return differs(alt);
+        }
+    }
+    // whole-sequence consumers
+    if mk().count() != n {
+        let mut alt = seq.clone();
+        alt.resize(mk().count(), true);
+        return differs(alt);
+    }
+    if mk().last() != seq.last().copied() {
+        let mut alt = seq.clone();
+        match mk().last() {
+            Some(b) if n > 0 => alt[n - 1] = b,
+            Some(b) => alt.push(b),
+            None => alt.clear(),
+        }
+        return differs(alt);
+    }
+    let folded: Vec<bool> = mk().fold(vec![], |mut a, b| { a.push(b); a });
+    if folded != seq {
+        return differs(folded);
+    }
+    let mut each = vec![];
+    mk().for_each(|b| each.push(b));
+    if each != seq {
+        return differs(each);
+    }
+    let zipped: Vec<bool> = mk().zip(0..n + 3).map(|(b, _)| b).collect();
+    if zipped != seq {
+        return differs(zipped);
+    }
+    seq
+}
+
 /// Records what `Hash` feeds to the hasher.
 #[derive(Default)]
 struct Recorder(Vec<u64>);
@@ -76,7 +212,7 @@ macro_rules! common_flav {
         fn observe(&self) -> (usize, String, usize, Option<usize>, bool, Vec<u8>) {
             (
                 self.len(),
-                bits_model(self.iter()),
+                bits_model(iter_views(|| self.iter()).into_iter()),
                 self.num_set_bits(),
                 self.highest_set_bit(),
                 self.is_zero(),
@@ -713,10 +849,15 @@ fn per_flavour<F>(ctx: &mut Ctx, cap: usize, dynamic: bool, count: usize)
 where
     F: Flav + serde::Serialize + serde::de::DeserializeOwned,
 {
+    let spread = cap >= 256 && !dynamic && ctx.filter.is_none();
+    let mut unit = 0usize;
     if ctx.has("bfhist") {
         // the model machines are quadratic in the bit length: fewer and shorter histories at 1024
-        let (hist_count, hist_len) = if cap >= 256 { (std::cmp::max(2, count / 16), 8) } else { (count, 40) };
+        let (hist_count, hist_len) = if cap >= 256 { (std::cmp::max(16, count / 16), 8) } else { (count, 40) };
         for _ in 0..hist_count {
+            if !mine(ctx, spread, &mut unit) {
+                continue;
+            }
             let mut r = ctx.rng.clone();
             let ops = gen_history(&mut r, cap, dynamic, hist_len);
             ctx.rng = r;
@@ -740,6 +881,9 @@ where
         for &la in &lens {
             for &lb in &lens {
                 for _ in 0..reps {
+                    if !mine(ctx, spread, &mut unit) {
+                        continue;
+                    }
                     let mut r = ctx.rng.clone();
                     let ops = gen_pair_history::<F>(&mut r, la, lb);
                     ctx.rng = r;
@@ -751,18 +895,28 @@ where
         }
     }
     if ctx.has("bfbytes") {
-        bytes_case::<F>(ctx, &[]);
+        if mine(ctx, spread, &mut unit) {
+            bytes_case::<F>(ctx, &[]);
+        }
         for a in 0..=255u8 {
-            bytes_case::<F>(ctx, &[a]);
+            if mine(ctx, spread, &mut unit) {
+                bytes_case::<F>(ctx, &[a]);
+            }
         }
         if ctx.exhaustive >= 2 {
             for a in 0..=255u8 {
+                if !mine(ctx, spread, &mut unit) {
+                    continue;
+                }
                 for b in 0..=255u8 {
                     bytes_case::<F>(ctx, &[a, b]);
                 }
             }
         }
         for _ in 0..count {
+            if !mine(ctx, spread, &mut unit) {
+                continue;
+            }
             let mut r = ctx.rng.clone();
             let b = if r.chance(1, 8) {
                 // around the 128-byte SmallVec spill
@@ -781,6 +935,9 @@ where
     }
     if ctx.has("serde") {
         for _ in 0..count {
+            if !mine(ctx, spread, &mut unit) {
+                continue;
+            }
             let mut r = ctx.rng.clone();
             let b = gen_bf_bytes(&mut r, if dynamic { 24 } else { cap });
             let s = gen_hex_string(&mut r, &b);
@@ -813,17 +970,29 @@ macro_rules! for_caps {
     }};
 }
 
+/// Capacities of 256 bits and more are expensive for the extracted model (every bit operation walks a
+/// byte list): their work is dealt out over all shards, unit by unit, instead of loading one of them.
+fn cap_tags<N: Unsigned>() -> &'static str {
+    if N::to_usize() >= 256 { "bitfield,spread" } else { "bitfield" }
+}
 fn cap_list<N: Unsigned + Clone>(ctx: &mut Ctx, count: usize) {
-    if ctx.wants(&BitList::<N>::name(), "bitfield") {
+    if ctx.wants(&BitList::<N>::name(), cap_tags::<N>()) {
         per_flavour::<BitList<N>>(ctx, N::to_usize(), false, count);
         arb_flavour::<BitList<N>>(ctx, count);
     }
 }
 fn cap_vec<N: Unsigned + Clone>(ctx: &mut Ctx, count: usize) {
-    if ctx.wants(&BitVector::<N>::name(), "bitfield") {
+    if ctx.wants(&BitVector::<N>::name(), cap_tags::<N>()) {
         per_flavour::<BitVector<N>>(ctx, N::to_usize(), false, count);
         arb_flavour::<BitVector<N>>(ctx, count);
     }
+}
+
+/// Is this unit of work of a spread flavour dealt to this shard?  (Flavours that are not spread are
+/// wholly in one shard: every unit is theirs.)
+fn mine(ctx: &Ctx, spread: bool, unit: &mut usize) -> bool {
+    *unit += 1;
+    !spread || (*unit - 1) % ctx.shard.1 == ctx.shard.0
 }
 
 fn arb_flavour<F>(ctx: &mut Ctx, count: usize)
@@ -833,14 +1002,21 @@ where
     if !ctx.has("arb") {
         return;
     }
-    arbitrary_case::<F>(ctx, &[]);
-    arbitrary_case::<F>(ctx, &[0; 16]);
-    arbitrary_case::<F>(ctx, &[255; 16]);
-    arbitrary_case::<F>(ctx, &[1, 0, 0, 0, 0, 0, 0, 0, 1]);
-    for k in 0..9u8 {
-        arbitrary_case::<F>(ctx, &[k, 0, 0, 0, 0, 0, 0, 0, 1, 1, 1, 1, 1, 1, 1, 1, 1]);
+    let spread = F::name().split(':').nth(1).and_then(|c| c.parse::<usize>().ok()).map(|c| c >= 256).unwrap_or(false) && ctx.filter.is_none();
+    let mut unit = 0usize;
+    if mine(ctx, spread, &mut unit) {
+        arbitrary_case::<F>(ctx, &[]);
+        arbitrary_case::<F>(ctx, &[0; 16]);
+        arbitrary_case::<F>(ctx, &[255; 16]);
+        arbitrary_case::<F>(ctx, &[1, 0, 0, 0, 0, 0, 0, 0, 1]);
+        for k in 0..9u8 {
+            arbitrary_case::<F>(ctx, &[k, 0, 0, 0, 0, 0, 0, 0, 1, 1, 1, 1, 1, 1, 1, 1, 1]);
+        }
     }
     for _ in 0..count {
+        if !mine(ctx, spread, &mut unit) {
+            continue;
+        }
         let mut r = ctx.rng.clone();
         let hi = if r.chance(1, 6) { 200 } else { 24 };
         let n = r.below(hi);
